@@ -49,7 +49,7 @@ def gen_ast(rng):
             op = {"k": "gen", "ins": ins, "dst": dst, "tag": t()}
             if rng.random() < 0.3:
                 # the kernel also takes a scalar operand: the index-dependent offset, or a value from outside of the loop
-                op["scalar"] = rng.choice(["%off", "%sta", "%sta"])
+                op["scalar"] = rng.choice(["%off", "%i", "%sta", "%sta"])
             elif rng.random() < 0.15:
                 # the body of the kernel uses a value of the enclosing scope directly (not as an operand)
                 op["capture"] = rng.choice(["%off", "%i", "%sta"])
